@@ -9,6 +9,13 @@ def _trace(prop, tier, seed, t0):
 
 CHECKS = {p: _trace for p in TRACE_PLANS}
 
+
+def _c04(prop, tier, seed, t0):
+    return trace_check(prop, tier, seed, TRACE_PLANS[prop], t0, build_profiles=("release", "dbg"))
+
+
+CHECKS["C04"] = _c04
+
 HOOK_COMMITS = ["24eb488"]
 NOT_APPLICABLE = {}
 
@@ -25,6 +32,7 @@ META = {
     "C01": _m("Every execution of the real solver over generated universes (sync/async, all hint patterns, soft requirements) is recorded and validated by TLC against the declarative validity rules of Universe.tla; with hooks every clause must be a true fact and the final assignment must falsify no clause.", "6 C01", "TLA+ trace validation (TLC) of recorded solver executions against a declarative oracle"),
     "C02": _m("Verdicts are compared by TLC with the brute-force Satisfiable operator on small universes and certified on all sizes by an in-TLC proof check of the hook stream (true facts, unit reasons, RUP learnt clauses, RUP refutation); metamorphic variants (candidate order, ids, hints, activity parameters).", "6 C02", "TLA+ trace validation (TLC): oracle comparison + RUP proof checking of the recorded clause/learning stream"),
     "C03": _m("Every conflict graph of generated unsatisfiable problems is checked by TLC edge by edge against the universe, for group exactness, reachability and self-containedness (no model of the displayed facts); with hooks each learnt clause must follow from its recorded antecedents and the reported clause set must be unsatisfiable.", "6 C03", "TLA+ trace validation (TLC) of serialized conflict graphs and antecedent chains"),
+    "C04": _m("Every generated case (weighted to hints x exclusions x locks x constraints, soft requirements on unrequested packages, self-constraining solvables, cyclic conflicts) is run in a release build and in a build with debug assertions; each run must end in a result and render graph, graphviz and message within the bound TLC computes from the graph (simple paths); panics, timeouts and crashes are rule failures.", "6 C04", "TLA+ trace validation (TLC) of runs in two build profiles; panic/timeout/crash recorded as events", level="model_checking"),
     "C05": _m("Supportedness of every returned solution is evaluated by TLC; undo events must truncate the trail to a prefix and the solution must equal the true solvable variables of the final trail.", "6 C05", "TLA+ trace validation (TLC)"),
     "C07": _m("On generated conflict-free universes (premise re-evaluated by TLC) the returned selection must equal the first-choice closure, under all hint patterns, candidate permutations and async schedules.", "6 C07", "TLA+ trace validation (TLC)"),
     "C08": _m("TLC decides DirectBestFeasible by seeded search and requires the best direct candidates in the result, for several activity parameters and hint patterns.", "6 C08", "TLA+ trace validation (TLC)"),
